@@ -7,8 +7,8 @@ LEAN_PROPS = ["FcpptProofs.Props.C14"]
 # second translation unit (member operators): compiled in parallel with the first.  vlib/harness.py joins every entry of
 # repo_srcs to the fcppt tree with os.path.join, which leaves an absolute path as it is.
 import os as _os
-_MEMBER_TU = _os.path.join(_os.path.dirname(_os.path.dirname(_os.path.abspath(__file__))), "harness", "c14_member.cpp")
-HARNESS = {"src": "harness/c14.cpp", "repo_srcs": [_MEMBER_TU], "flags": ["-g1"]}
+_HDIR = _os.path.join(_os.path.dirname(_os.path.dirname(_os.path.abspath(__file__))), "harness")
+HARNESS = {"src": "harness/c14.cpp", "repo_srcs": [_os.path.join(_HDIR, "c14_member.cpp"), _os.path.join(_HDIR, "c14_extra.cpp")], "flags": ["-g1"]}
 TIE = ("hand-written model (FcpptModel/Model/C14.lean: row-major storage, index_absolute / row-view index arithmetic, every "
        "operator as the init/fold the header writes) + differential correspondence against the real templates on long scalars, "
        "static storage, row views and a buffer-view storage; the harness additionally recomputes every result naively on plain arrays")
@@ -203,6 +203,39 @@ def systematic_batches(rng, thorough):
     yield Batch("mat-one-entry-differs", ops, note="matrix == != + - on operands that differ in exactly one entry, every position of every shape")
 
 
+def neighbour_batches(rng, thorough):
+    r = rng.fork("neighbour")
+    modes = ["ss", "rs", "bs", "sb", "rb", "bb"]
+    ops = []
+    for n in (1, 2, 3):
+        for ia in range(4 ** n):
+            for ib in range(4 ** n):
+                for lr in (modes if n < 3 else [modes[(ia + ib) % 6]]):
+                    ops.append(f"nb {lr} {n} {vs(enum_a(n, ia))} {vs(enum_a(n, ib))} {(ia + ib) % (n + 1)}")
+    for _ in range(10000 if thorough else 2000):
+        n = r.range(1, 4)
+        a = rvec(r, n) if r.chance(1, 2) else [r.range(-1, 2) for _ in range(n)]
+        b = [a[0]] * n if r.chance(1, 6) else (rvec(r, n) if r.chance(1, 2) else [r.range(-1, 2) for _ in range(n)])
+        ops.append(f"nb {r.choice(modes)} {n} {vs(a)} {vs(b)} {r.below(n + 1)}")
+    yield Batch("neighbour-vec-dim", ops, note="vector o dim (+ - * /), contents, is_quadratic, to_dim, to_vector, unit: all pairs over {-1,0,1,2} for dimension 1-3, random dimension 1-4")
+    ops = []
+    for _ in range(5000 if thorough else 1200):
+        k = r.below(4)
+        if k == 0:      # translation
+            m = [1, 0, 0, r.range(-9, 9), 0, 1, 0, r.range(-9, 9), 0, 0, 1, r.range(-9, 9), 0, 0, 0, 1]
+        elif k == 1:    # scaling
+            m = [r.range(-9, 9), 0, 0, 0, 0, r.range(-9, 9), 0, 0, 0, 0, r.range(-9, 9), 0, 0, 0, 0, 1]
+        else:
+            m = rvec(r, 16)
+        ops.append(f"tp {r.choice('sb')} {r.choice('srb')} {vs(m)} {vs(rvec(r, 3))}")
+    for a in range(256):
+        ops.append(f"inf {'sb'[a % 2]} 2 2 {vs(decode2(a))}")
+    for _ in range(3000 if thorough else 800):
+        rr, cc = r.choice(MAT_SHAPES)
+        ops.append(f"inf {r.choice('sb') if (rr, cc) in MAT_VIEWS else 's'} {rr} {cc} {vs(rvec(r, rr * cc))}")
+    yield Batch("neighbour-matrix", ops, note="transform_point / transform_direction (translations, scalings, random 4x4), infinity_norm (all 2x2 over {-1,0,1,2}, random shapes)")
+
+
 def member_batches(rng, thorough):
     # ---- exhaustive over small vectors: every single statement (target x operand x operator, every aliasing pattern)
     ops = []
@@ -237,7 +270,7 @@ def member_batches(rng, thorough):
 
 def nontrivial(op, result):
     t = op.split()
-    if t[0] in ("bits", "det0", "builders", "mem", "mems", "vecs", "crs", "sqs", "mvs"):
+    if t[0] in ("bits", "det0", "builders", "mem", "mems", "vecs", "crs", "sqs", "mvs", "nb", "tp", "inf"):
         return True
     if t[0] in ("pairs", "trios"):
         return any(int(x) != 0x55 for x in t[2:])      # 0x55 is the zero matrix
@@ -393,6 +426,7 @@ def batches(rng, tier):
         ops.append("builders " + " ".join(str(r.range(-9, 9)) for _ in range(6)))
     yield Batch("vec-dim-random", ops, note="vectors and dims of dimension 1-4 in [-9,9], static / row-view / buffer-view operands; cross; builders")
     yield from systematic_batches(rng, thorough)
+    yield from neighbour_batches(rng, thorough)
     yield from member_batches(rng, thorough)
 
 
